@@ -202,6 +202,20 @@ example (n m n' m' : ℕ) [NeZero n] [NeZero m] [NeZero n'] [NeZero m']
   fourier_interpolate_preserves_mean_hasDC (zmodPair2 n m) (zmodPair2 n' m') (0, 0) (0, 0) (zmodPair2_hasDC n m) (zmodPair2_hasDC n' m')
     crop hcrop x
 
+/-- Negation witness (known finding `images-interpolate-own-sampling-changes-grid`): `Images.interpolate(sampling=d)`
+counts `ceil(extent / d)` grid points (generated).  For an image of 3 pixels of size `d = 0.1` the extent evaluates in
+binary64 to `0.30000000000000004 = 1351079888211149 / 2^52` while `0.1 = 3602879701896397 / 2^55`; their quotient exceeds
+3, so the image's OWN sampling asks for 4 grid points: "the same grid" is not returned (exact values of the IEEE
+doubles; the quotient is > 3 already in exact arithmetic). -/
+theorem images_interpolate_own_sampling_counterexample :
+    ¬ ∀ (n : Nat) (d extent : Rat), 0 < d → (n : Rat) * d ≤ extent → extent < ((n : Rat) + 1 / 1000000) * d →
+        imagesGptsFromSampling extent d = (n : Int) := by
+  intro h
+  have h1 := h 3 (3602879701896397 / 36028797018963968) (1351079888211149 / 4503599627370496)
+    (by norm_num) (by norm_num) (by norm_num)
+  revert h1
+  decide +kernel
+
 /-! ### non-vacuity -/
 example : rescale [1, 1, 2] 3 = [3/4, 3/4, 3/2] := by decide +kernel
 example : interpolate 2 2 (1/2) (1/2) [1, 2, 3, 4] 3 3 (1/4) (1/4)
